@@ -136,11 +136,14 @@ func genEz(seed uint64, faulty bool) *Scenario {
 		}
 		if g.pct(35) {
 			p.Leaves["ez_set"] = fmt.Sprintf("s%d|t%d", g.id(), g.id())
+			if g.pct(30) {
+				p.Leaves["ez_set"] = "" // the empty list: clears what the defaults hold
+			}
 		}
 	}
 	fileExtras(&e.File)
 	fileExtras(&e.Decoy)
-	if g.pct(25) {
+	if g.pct(40) {
 		e.Defaults.Leaves["ez_set"] = "d1|d2"
 	}
 	// validity
@@ -219,6 +222,9 @@ func (p *EzPart) renderRaw(format string) []byte {
 		case "ez_name":
 			return strconv.Quote(v)
 		case "ez_set":
+			if v == "" {
+				return "[]"
+			}
 			parts := strings.Split(v, "|")
 			for i := range parts {
 				parts[i] = strconv.Quote(parts[i])
@@ -307,7 +313,9 @@ func applyLeaves(c *CfgEz, p *EzPart) {
 		case "ez_set":
 			c.Set = map[string]struct{}{}
 			for _, x := range strings.Split(v, "|") {
-				c.Set[x] = struct{}{}
+				if v != "" {
+					c.Set[x] = struct{}{}
+				}
 			}
 		case "ez_c":
 			c.C = n
